@@ -146,5 +146,6 @@ int main() {
   if (hn == 1 && hd == 4) return dispatch<1, 4>(combo);
   if (hn == 3 && hd == 10) return dispatch<3, 10>(combo);
   if (hn == 1 && hd == 1) return dispatch<1, 1>(combo);
+  if (hn == 1 && hd == 30) return dispatch<1, 30>(combo);
   return 6;
 }
